@@ -1175,6 +1175,8 @@ def run(tier: str = "quick", seed: int = 0) -> dict:
     jobs = [(seed, s, min(per, n_hist - s), max_ops, fixed) for s in range(0, n_hist, per)]
     nd = len(_directed())
     djobs = [(s, 400) for s in range(0, nd, 400)]
+    cells("a")  # build the width table and import rich once, before the workers are forked
+    make_console()
     ctx = mp.get_context("fork")
     with ctx.Pool(procs) as pool:
         dres = pool.map(_directed_batch, djobs, chunksize=1)
